@@ -146,11 +146,17 @@ def op_cases(draw, ops=None, dtypes=None, constraint=None, unsupported_rate=0.0,
             s_ = s_[k_:]
             return [1 if draw(st.integers(0, 9)) < 3 else v for v in s_]
 
-        a = draw(st.sampled_from(["full", "sub", "pyscalar"]))
+        a = draw(st.sampled_from(["full", "sub", "pyscalar", "mutual"]))
         bb = draw(st.sampled_from(["full", "sub", "pyscalar"])) if a != "pyscalar" else "full"
-        c.update(a=full if a == "full" else (sub() if a == "sub" else "scalar"),
-                 b=full if bb == "full" else (sub() if bb == "sub" else "scalar"),
-                 scalar=draw(st.sampled_from([2.5, -1, 0, 3])), constraint=cons(TER))
+        if a == "mutual":
+            # both operands broadcast against each other; equal element counts included ((n,1)+(1,n), (n,1)+(n,), (a,1,c)+(1,a,c))
+            n_ = draw(st.integers(2, 5))
+            va, vb = draw(st.sampled_from([([n_, 1], [1, n_]), ([n_, 1], [n_]), ([n_, 1, 2], [1, n_, 2]), ([n_, 1], [1, n_ + 1]), ([1, n_, 1], [n_, 1, 3])]))
+            c.update(a=va, b=vb, scalar=2.5, constraint=cons(TER))
+        else:
+            c.update(a=full if a == "full" else (sub() if a == "sub" else "scalar"),
+                     b=full if bb == "full" else (sub() if bb == "sub" else "scalar"),
+                     scalar=draw(st.sampled_from([2.5, -1, 0, 3])), constraint=cons(TER))
     elif op == "embedding":
         V = draw(st.integers(2, 10))
         c.update(idx=b + [draw(st.integers(1, 5))], V=V, dim=draw(st.integers(1, 6)),
